@@ -3,6 +3,7 @@ use crate::rng::Rng;
 use std::fmt::Write as _;
 
 pub mod c01;
+pub mod c02;
 pub mod c04;
 pub mod c09;
 pub mod c15;
